@@ -179,3 +179,19 @@ Proof.
   split; [cbn; tauto|]. split; [cbn; tauto|]. split; [exact Ea|]. cbn. split; [exact I|]. split; [|exact I].
   now apply rok_of.
 Qed.
+
+(* ---------- the iterators over a compiled pattern, with no assumption on the step budget ---------- *)
+From FR Require Import ApiTotal.
+Theorem pattern_api_total :
+  forall (re : list nat), valid_text re ->
+  forall (e : expr) (st : pst), parse re = POk (e, st) ->
+  condok true e -> kok true e ->
+  forall (p : prog) (ng : nat), regex_new (bs_of st) e = inr (RFancy p ng) ->
+  forall cs : list (list nat), valid_chars cs -> (N.of_nat (length (concat cs)) < usize_max)%N ->
+  forall max_st limit,
+  exists n0, forall fuelv, n0 <= fuelv ->
+  find_iter_ok cs e p ng max_st limit fuelv /\ split_ok cs p ng max_st limit fuelv /\ replacen_ok cs p ng max_st limit fuelv.
+Proof.
+  intros re Hv e st Hp Hc Hk p ng Hn cs W Hl max_st limit.
+  exact (vm_api_total cs (bs_of st) e p (pattern_vm_scope re e st p ng cs Hv Hp Hc Hk Hn W Hl) ng max_st limit).
+Qed.
